@@ -243,6 +243,55 @@ RAISE_EXEMPT = {
 }
 
 
+def _probe_table(repo, f, tr, ctor):
+    """read_program written as a loop over a module-level table of probe functions: resolve, per row, the class the probe
+    returns and the exception names it returns for the handler.  None when the try statement is not of that form;
+    AnalysisError when it is but a row cannot be read (the handler would be undecidable)."""
+    if not (isinstance(ctor.func, ast.Name) and len(tr.handlers) == 1 and isinstance(tr.handlers[0].type, ast.Name)):
+        return None
+    pname, ename = ctor.func.id, tr.handlers[0].type.id
+    unpack = probe = None
+    for n in ast.walk(f.node):
+        if isinstance(n, ast.Assign) and isinstance(n.targets[0], ast.Tuple) and [getattr(e, "id", None) for e in n.targets[0].elts] == [pname, ename] and isinstance(n.value, ast.Call) and isinstance(n.value.func, ast.Name) and not n.value.args:
+            unpack, probe = n, n.value.func.id
+    if unpack is None:
+        return None
+    loop = idx = None
+    for n in ast.walk(f.node):
+        if isinstance(n, ast.For) and isinstance(n.iter, ast.Name) and any(x is unpack for x in ast.walk(n)):
+            elts = n.target.elts if isinstance(n.target, ast.Tuple) else [n.target]
+            for k, e in enumerate(elts):
+                if isinstance(e, ast.Name) and e.id == probe:
+                    loop, idx = n, (k if isinstance(n.target, ast.Tuple) else None)
+    if loop is None:
+        return None
+    m = repo.mod(CORE)
+    tab = None
+    for n in m.tree.body:
+        if isinstance(n, ast.Assign) and isinstance(n.targets[0], ast.Name) and n.targets[0].id == loop.iter.id and isinstance(n.value, (ast.Tuple, ast.List)):
+            tab = n.value
+    if tab is None:
+        raise AnalysisError("R-RAISE: table %s iterated by read_program is not a module-level tuple" % loop.iter.id)
+    out = []
+    for row in tab.elts:
+        cell = row if idx is None else (row.elts[idx] if isinstance(row, (ast.Tuple, ast.List)) and idx < len(row.elts) else None)
+        g = m.functions.get(cell.id) if isinstance(cell, ast.Name) else None
+        rets = [r for r in ast.walk(g.node) if isinstance(r, ast.Return)] if g is not None else []
+        if len(rets) != 1 or not (isinstance(rets[0].value, ast.Tuple) and len(rets[0].value.elts) == 2):
+            raise AnalysisError("R-RAISE: probe %s of table %s does not return (class, exceptions)" % (norm(cell) if cell is not None else "?", loop.iter.id))
+        cexpr, eexpr = rets[0].value.elts
+        names = []
+        for e in eexpr.elts if isinstance(eexpr, ast.Tuple) else [eexpr]:
+            names.append(e.id if isinstance(e, ast.Name) else e.attr if isinstance(e, ast.Attribute) else "?")
+        imports = {}
+        for n in ast.walk(g.node):
+            if isinstance(n, ast.ImportFrom):
+                for a in n.names:
+                    imports[a.asname or a.name] = (n.module, a.name)
+        out.append((cexpr, names, imports, "%s(f)" % norm(cexpr)))
+    return out
+
+
 def r_raise(repo, tier):
     out = RuleOut(
         "R-RAISE",
@@ -254,6 +303,7 @@ def r_raise(repo, tier):
     f = repo.func(CORE, "read_program")
     ra = RaiseAnalysis(repo)
     ntry = 0
+    cases = []   # (constructor callee expression, handler names, imports in scope, label)
     for tr in [n for n in ast.walk(f.node) if isinstance(n, ast.Try)]:
         ctor = None
         for n in ast.walk(ast.Module(body=tr.body, type_ignores=[])):
@@ -261,19 +311,24 @@ def r_raise(repo, tier):
                 ctor = n.value
         if ctor is None:
             continue
-        ntry += 1
         names = []
         for h in tr.handlers:
             hn = _handler_names(h)
             names += hn if hn is not None else ["BaseException"]
-        # resolve constructor: elf.Elf / HEX
-        cls = None
-        fn = ctor.func
         imports = {}
         for n in ast.walk(ast.Module(body=tr.body, type_ignores=[])):
             if isinstance(n, ast.ImportFrom):
                 for a in n.names:
                     imports[a.asname or a.name] = (n.module, a.name)
+        table = _probe_table(repo, f, tr, ctor)
+        if table is not None:
+            # `for .., probe in TABLE: parser, errors = probe(); try: p = parser(f) except errors:` -- one case per table row
+            cases.extend(table)
+        else:
+            cases.append((ctor.func, names, imports, norm(ctor)))
+    for fn, names, imports, label in cases:
+        ntry += 1
+        cls = None
         if isinstance(fn, ast.Attribute) and isinstance(fn.value, ast.Name) and fn.value.id in imports:
             mod, nm = imports[fn.value.id]
             modname = "%s.%s" % (mod, nm)
@@ -284,11 +339,11 @@ def r_raise(repo, tier):
             if mod in repo.modules:
                 cls = repo.modules[mod].classes.get(nm)
         if cls is None:
-            out.undecide(CORE, "read_program", norm(ctor), "constructor not resolved")
+            out.undecide(CORE, "read_program", label, "constructor not resolved")
             continue
         init = repo.find_method(cls, "__init__")
         if init is None:
-            out.undecide(CORE, "read_program", norm(ctor), "no __init__")
+            out.undecide(CORE, "read_program", label, "no __init__")
             continue
         rs = ra.raises(init)
         escaping = {}
@@ -299,9 +354,9 @@ def r_raise(repo, tier):
                     out.undecide(site.split(":")[0], origin, "%s at %s" % (e, site), "exempt: " + RAISE_EXEMPT[(site.split(":")[0], origin, e)])
                     continue
                 escaping.setdefault((e, site), via)
-        out.inst("%s::%s" % (f.key, norm(ctor)), {"try": norm(ctor), "catches": names, "explicit_may_raise": sorted({e for e, _, _ in rs}), "escaping": sorted("%s@%s" % k for k in escaping)})
+        out.inst("%s::%s" % (f.key, label), {"try": label, "catches": names, "explicit_may_raise": sorted({e for e, _, _ in rs}), "escaping": sorted("%s@%s" % k for k in escaping)})
         for (e, site), via in sorted(escaping.items()):
-            out.report(site.split(":")[0], via.split(" <- ")[0], "%s escapes %s" % (e, norm(ctor)), int(site.split(":")[1]), "%s raised at %s (reached %s) is not caught by read_program's `except (%s)` around %s: identification of a malformed file reports an unrelated exception instead of falling through to the next format" % (e, site, via, ", ".join(names), norm(ctor)))
+            out.report(site.split(":")[0], via.split(" <- ")[0], "%s escapes %s" % (e, label), int(site.split(":")[1]), "%s raised at %s (reached %s) is not caught by read_program's `except (%s)` around %s: identification of a malformed file reports an unrelated exception instead of falling through to the next format" % (e, site, via, ", ".join(names), label))
     # builtin calls of read_program itself with a documented exception set: open() on an arbitrary byte string / path
     stacks = _try_stack(f.node)
     nopen = 0
